@@ -730,6 +730,15 @@ public:
          os << " [" << varTypeName() << "]";
    } // TypedArg< LevelCounter>::printValue
 
+   /// Appends the current value of the level counter as default value. Needed
+   /// because this type prints its default value in the usage.
+   ///
+   /// @param[out]  dest  The string to append the default value to.
+   void defaultValue( std::string& dest) const override
+   {
+      dest.append( std::to_string( mDestVar.value()));
+   } // TypedArg< LevelCounter>::defaultValue
+
    /// Special feature for destination variable type level counter:
    /// Allow mixing of increment and assignment on the command line.
    ///
